@@ -1,6 +1,11 @@
 mod connection;
 mod request;
 
+#[cfg(aquatic_verif)]
+pub mod verif_request {
+    pub use super::request::{parse_request, RequestParseError};
+}
+
 use std::cell::RefCell;
 use std::net::SocketAddr;
 use std::os::unix::prelude::{FromRawFd, IntoRawFd};
